@@ -219,9 +219,8 @@ def workload_permanent(ctx, rng, mods, count, value_oracle=True):
             if A.shape[0] > 0 and A.shape[1] > 0 and it % 2 == 0:
                 cols_l = cols.copy()
                 cols_l[int(rng.integers(0, len(cols_l)))] += 1
-                if (cols_l > 0).all():
-                    perm_mod.permanent_laplace(Ain, r32, cols_l.astype(np.int32))
-                    ctx.evals += 1
+                perm_mod.permanent_laplace(Ain, r32, cols_l.astype(np.int32))  # zero column multiplicities included
+                ctx.evals += 1
             continue
         ref, env = R.perm_multiplicity(Ain.astype(np.complex128), rows, cols)
         env = max(env, R.glynn_envelope(Ain.astype(np.complex128), rows, cols))
@@ -240,7 +239,8 @@ def workload_permanent(ctx, rng, mods, count, value_oracle=True):
         if sum(rows) >= 0 and A.shape[0] > 0 and A.shape[1] > 0 and it % 2 == 0:
             cols_l = cols.copy()
             cols_l[int(rng.integers(0, len(cols_l)))] += 1
-            if (cols_l > 0).all():
+            # every multiplicity pattern, zeros included: entry j is defined (and judged) where cols_l[j] > 0
+            if True:
                 try:
                     gl = np.asarray(perm_mod.permanent_laplace(Ain, r32, cols_l.astype(np.int32)))
                 except Exception as e:
@@ -251,7 +251,11 @@ def workload_permanent(ctx, rng, mods, count, value_oracle=True):
                 if len(gl) != len(refs):
                     ctx.viol("permanent_laplace-length", "permanent_laplace returned %d values for %d columns" % (len(gl), len(refs)), lcase)
                 else:
+                    if (cols_l == 0).any():
+                        ctx.c["laplace_zero_column_cases"] = ctx.c.get("laplace_zero_column_cases", 0) + 1
                     for j, rv in enumerate(refs):
+                        if rv is None:
+                            continue
                         c2 = cols_l.copy()
                         c2[j] -= 1
                         rv = (rv[0], max(rv[1], R.glynn_envelope(Ain.astype(np.complex128), rows, c2)))
